@@ -55,6 +55,17 @@ Theorem c31_clear : forall res ops, forallb op_wf ops = true ->
 Proof. exact c31_clear_lemma. Qed.
 Print Assumptions c31_clear.
 
+(* Clause 4 once more without the monitor: in the history after a clear() no event that was
+   scheduled before that clear() runs (whatever is executed before and after it). *)
+Theorem c31_clear_direct : forall res ops1 now ops2,
+  let s1 := run res ops1 init in
+  let s2 := run res ops2 (clear now s1) in
+  exists h', hist s2 = hist s1 ++ [HClear now (length (q s1))] ++ h' /\
+    forall id cb rep ms t0, In (HSched id cb rep ms t0) (hist s1) ->
+    forall cb' t r, ~ In (HFire id cb' t r) h'.
+Proof. exact c31_clear_direct2_lemma. Qed.
+Print Assumptions c31_clear_direct.
+
 (* Extra clause (not in the property text, but needed for the first four to mean anything):
    whenever the timer thread decides to sleep, no pending event is due. *)
 Theorem c31_prompt : forall res ops, forallb op_wf ops = true ->
